@@ -475,14 +475,14 @@ func c01CompositeEH(w *World, r *Report, pa *pipelineAnchors) {
 					switch {
 					case s.Kind == "call" && isResult(in, 0)(s.V):
 					case s.Kind == "call" && isResult(cd, 1)(s.V):
-						if !onlyVia(cw, s.At, nonNilOf(isResult(cd, 1))) {
+						if !srcOnlyVia(cw, s, nonNilOf(isResult(cd, 1))) {
 							okRet, msg = false, "condition error returned outside its != nil edge"
 						}
 					case s.Kind == "global":
 						g := s.V.(*ssa.Global)
 						sentinel = g
 						// must be on the canExecute == false edge
-						if !onlyVia(cw, s.At, func(f Fact) bool { return f.Kind == FFalse && isResult(cd, 0)(f.V) }) {
+						if !srcOnlyVia(cw, s, func(f Fact) bool { return f.Kind == FFalse && isResult(cd, 0)(f.V) }) {
 							okRet, msg = false, "sentinel returned although the condition held"
 						}
 					case s.Kind == "nonnil":
@@ -520,7 +520,7 @@ func c01CompositeEH(w *World, r *Report, pa *pipelineAnchors) {
 			for _, s := range w.Sources(ret.Results[0], ret.Block()) {
 				switch {
 				case s.Kind == "nil":
-					if !onlyVia(ce, s.At, nilOf(isElemErr)) {
+					if !srcOnlyVia(ce, s, nilOf(isElemErr)) {
 						ok, msg = false, "nil is returned on a path that does not pass the == nil edge of a handler's Execute"
 					}
 				case s.Kind == "param" && s.V == ce.Params[2]:
@@ -642,7 +642,7 @@ func c01StageComposites(w *World, r *Report, pa *pipelineAnchors, forC01 bool) {
 			for _, s := range w.Sources(ret.Results[1], ret.Block()) {
 				switch {
 				case s.Kind == "nil" && !failureShaped:
-					if !onlyVia(sc, s.At, nilOf(isElemErr)) {
+					if !srcOnlyVia(sc, s, nilOf(isElemErr)) {
 						ok, msg = false, "a subject is returned with nil error on a path that does not pass the == nil edge of an authenticator's Execute"
 					}
 				case s.Kind == "nil" && failureShaped:
@@ -868,7 +868,7 @@ func c01StageComposites(w *World, r *Report, pa *pipelineAnchors, forC01 bool) {
 				case s.Kind == "nonnil":
 				case s.Kind == "nil":
 					// skipping is allowed only if the condition evaluated without error to false
-					if !onlyVia(ch, s.At, nilOf(isResult(cd, 1))) || !onlyVia(ch, s.At, func(f Fact) bool { return f.Kind == FFalse && isResult(cd, 0)(f.V) }) {
+					if !srcOnlyVia(ch, s, nilOf(isResult(cd, 1))) || !srcOnlyVia(ch, s, func(f Fact) bool { return f.Kind == FFalse && isResult(cd, 0)(f.V) }) {
 						ok, msg = false, "the step is skipped (nil returned) although the condition did not evaluate to false without error"
 					}
 				default:
@@ -1105,7 +1105,7 @@ func c01RuleExecute(w *World, r *Report, pa *pipelineAnchors) {
 			case s.Kind == "nil":
 				successShaped = true
 				for i, st := range stages {
-					if !onlyVia(fn, s.At, nilOf(isResult(st, errIdx(st)))) {
+					if !srcOnlyVia(fn, s, nilOf(isResult(st, errIdx(st)))) {
 						ok, msg = false, fmt.Sprintf("nil error returned on a path that does not pass the == nil edge of stage %d", i)
 					}
 				}
@@ -1170,7 +1170,7 @@ func c01RuleExecute(w *World, r *Report, pa *pipelineAnchors) {
 						ok, msg = false, "Rule.Execute's error is paired with a different backend"
 					}
 				case s.Kind == "call" && isResult(fd, 1)(s.V):
-					if !onlyVia(ex, s.At, nonNilOf(isResult(fd, 1))) {
+					if !srcOnlyVia(ex, s, nonNilOf(isResult(fd, 1))) {
 						ok, msg = false, "FindRule's error is returned outside its != nil edge"
 					}
 				case s.Kind == "nonnil":
@@ -1584,7 +1584,7 @@ func c01EvalErrorClass(w *World, r *Report) {
 				n++
 				ok := true
 				for _, e := range evals {
-					if !onlyVia(fn, s.At, nilOf(isResult(e, errIdx(e)))) {
+					if !srcOnlyVia(fn, s, nilOf(isResult(e, errIdx(e)))) {
 						ok = false
 					}
 				}
